@@ -18,9 +18,11 @@
      * finiteness by construction (MaxTracks, MaxIter) so Terminates is checked as
        "every maximal behaviour ends with queued = alive = 0" (no state constraint).
    Both TrackOrder::none and TrackOrder::init_charge (Charge = TRUE) are configurations. *)
-EXTENDS CoreLoop, TLC
+EXTENDS CoreLoop, TLC, Json
 
-CONSTANTS NSlots, InitCap, MaxTracks, MaxSec, MaxIter, Charge, MaxPrim, MaxE, TwoM, PTypes, PrimE
+CONSTANTS NSlots, InitCap, MaxTracks, MaxSec, MaxIter, Charge, MaxPrim, MaxE, TwoM, PTypes, PrimE,
+          AllowOut,   \* tracks may leave the world (FALSE for the scripted replay, where nothing escapes)
+          MinAliveE   \* least energy of a surviving track (1 for the scripted replay: no stopped particles)
 Slots == 1..NSlots
 \* particle types (subset of): 0 gamma (neutral), 1 electron (charged), 2 positron (charged,
 \* antiparticle).  Secondaries are born with one energy unit; primaries with PrimE units.
@@ -35,17 +37,19 @@ VARIABLES slot,     \* [Slots -> slot record] ; active records carry gpos/bpos g
           nsec,     \* counters.num_secondaries of the last ExtendFromSecondaries
           pc, iter, inserted, posts, npos, err,
           born, finished, win, dep, esc,   \* ghosts / ledgers
+          hist,                            \* ghost: the environment script of this behaviour (replay)
           geo,                             \* ghost: position id whose geometry state each slot holds
                                            \* (persists while the slot is inactive, as in the code)
           ref                              \* violated Abs clauses (must stay empty)
-vars == <<slot, inits, parents, tcount, nsec, pc, iter, inserted, posts, npos, err, born, finished, win, dep, esc, geo, ref>>
+vars == <<slot, inits, parents, tcount, nsec, pc, iter, inserted, posts, npos, err, born, finished, win, dep, esc, geo, ref, hist>>
+View == <<slot, inits, parents, tcount, nsec, pc, iter, inserted, posts, npos, err, born, finished, win, dep, esc, geo, ref>>
 
 Blank == [ev |-> 0, tid |-> -1, par |-> -1, pt |-> 0, Et |-> -1, Eq |-> -1, tt |-> 0, pos |-> -1]
 Init == /\ slot = [i \in Slots |-> Inactive(i)] /\ inits = <<>> /\ parents = [i \in Slots |-> 0]
         /\ tcount = 0 /\ nsec = 0 /\ pc = "gen" /\ iter = 0 /\ inserted = 0
         /\ posts = <<>> /\ npos = 0 /\ err = FALSE
         /\ born = {} /\ finished = {} /\ win = 0 /\ dep = 0 /\ esc = 0 /\ ref = {}
-        /\ geo = [i \in Slots |-> -2]
+        /\ geo = [i \in Slots |-> -2] /\ hist = <<>>
 
 Vac == {i \in Slots : ~IsActive(slot[i])}
 SortedSeq(S) == SetToSortSeq(S, LAMBDA a, b : a < b)
@@ -59,6 +63,7 @@ Gen ==
        /\ IF Len(inits) + k > InitCap
           THEN \* CELER_VALIDATE in ExtendFromPrimariesAction::insert: error, state untouched
                /\ err' = TRUE
+               /\ hist' = Append(hist, [k |-> "gen", prims |-> [j \in 1..k |-> [pt |-> pts[j], E |-> es[j]]], err |-> TRUE])
                /\ UNCHANGED <<inits, tcount, inserted, parents, born, win, ref>>
           ELSE LET new == [j \in 1..k |-> [ev |-> 0, tid |-> tcount + j - 1, par |-> -1, pt |-> pts[j],
                                            Et |-> es[j], Eq |-> es[j], tt |-> 0, pos |-> 0]]
@@ -73,6 +78,7 @@ Gen ==
                   /\ win' = win + Sum([j \in 1..k |-> W(Twom, pts[j], es[j])])
                   /\ ref' = ref \cup GenClauses(slot, InitSet, born, prims, new, <<>>, Len(inits) + k, InitCap)
                   /\ err' = FALSE
+                  /\ hist' = Append(hist, [k |-> "gen", prims |-> [j \in 1..k |-> [pt |-> pts[j], E |-> es[j]]], err |-> FALSE])
   /\ pc' = "start" /\ UNCHANGED <<slot, nsec, iter, posts, npos, finished, dep, esc, geo>>
 
 \* ---- start: InitializeTracksAction ------------------------------------------------------
@@ -117,6 +123,7 @@ Start ==
         /\ ref' = ref \cup StartClauses(slot, InitSet, changed, removed, <<>>,
                                         [inits |-> nI - n, vac |-> nV - n, active |-> NSlots - (nV - n)], NSlots)
                       \cup (IF Cardinality({VacOf(t) : t \in T}) = n THEN {} ELSE {"IMPL.DistinctVacancies"})
+        /\ hist' = Append(hist, [k |-> "start", tids |-> [i \in Slots |-> IF IsActive(newslot[i]) THEN newslot[i].tid ELSE -1]])
   /\ pc' = "phys" /\ UNCHANGED <<tcount, nsec, iter, inserted, posts, npos, err, born, finished, win, dep, esc>>
 
 \* ---- physics: one step of every active track, chosen by the environment -----------------
@@ -128,7 +135,8 @@ Outcomes(pt, E) ==
      LET w0 == W(Twom, pt, E)
          w1 == IF o.st = "alive" \/ o.out THEN W(Twom, pt, o.E1) ELSE 0
          ws == Sum([j \in DOMAIN o.secs |-> W(Twom, o.secs[j][1], o.secs[j][2])])
-     IN /\ (o.out => o.st = "killed" /\ o.secs = <<>>)      \* leaves the world at a boundary
+     IN /\ (o.out => AllowOut /\ o.st = "killed" /\ o.secs = <<>>)      \* leaves the world at a boundary
+        /\ (o.st = "alive" => o.E1 >= MinAliveE)
         /\ (o.st = "killed" /\ ~o.out => o.E1 = 0)
         /\ w0 - w1 - ws >= 0}                                \* deposit = what is left over
 \* all assignments of one outcome to every active slot (dependent product)
@@ -160,6 +168,9 @@ Phys ==
              /\ dep' = dep + Sum([k \in 1..NSlots |-> IF IsActive(slot[k]) THEN post(k).depq ELSE 0])
              /\ esc' = esc + Sum([k \in 1..NSlots |-> IF IsActive(slot[k]) /\ o[k].out
                                                       THEN W(Twom, slot[k].pt, o[k].E1) ELSE 0])
+             /\ hist' = Append(hist, [k |-> "phys", outs |-> [i \in ActiveSlots(slot) |->
+                                  [tid |-> slot[i].tid, alive |-> o[i].st = "alive", E1 |-> o[i].E1, dep |-> post(i).depq,
+                                   secs |-> [j \in DOMAIN o[i].secs |-> <<o[i].secs[j][1], o[i].secs[j][2]>>]]]])
   /\ npos' = npos + NSlots
   /\ pc' = "end" /\ iter' = iter + 1
   /\ UNCHANGED <<inits, parents, tcount, nsec, inserted, err, born, finished, win, ref>>
@@ -179,6 +190,7 @@ End ==
      IN IF nI > InitCap
         THEN \* CELER_VALIDATE before process_secondaries: nothing is written
              /\ err' = TRUE /\ UNCHANGED <<slot, inits, parents, tcount, nsec, born, finished, ref>>
+             /\ hist' = Append(hist, [k |-> "end", err |-> TRUE])
         ELSE
         \* ProcessSecondaries over slots in increasing order; ids by sequential fetch_add
         LET RECURSIVE P(_, _, _, _, _)
@@ -222,6 +234,9 @@ End ==
             inpl == {i \in dead : IsActive(newslot[i])}
         IN /\ slot' = newslot /\ inits' = newinits /\ parents' = res[3] /\ tcount' = res[4]
            /\ nsec' = total /\ err' = FALSE
+           /\ hist' = Append(hist, [k |-> "end", err |-> FALSE,
+                                    tids |-> [i \in Slots |-> IF IsActive(newslot[i]) THEN newslot[i].tid ELSE -1],
+                                    queue |-> [k2 \in DOMAIN newinits |-> newinits[k2].tid]])
            /\ born' = born \cup {<<0, added[k].tid>> : k \in DOMAIN added} \cup {Key(newslot[i]) : i \in inpl}
            /\ finished' = finished \cup {Key(posts[i]) : i \in dead}
            /\ ref' = ref \cup EndClauses(slot, InitSet, born, posts, changed,
@@ -237,7 +252,7 @@ Reset ==
   /\ slot' = [i \in Slots |-> Inactive(i)] /\ inits' = <<>> /\ parents' = [i \in Slots |-> 0]
   /\ tcount' = 0 /\ nsec' = 0 /\ pc' = "done" /\ posts' = <<>> /\ err' = FALSE
   /\ born' = {} /\ finished' = {} /\ win' = 0 /\ dep' = 0 /\ esc' = 0
-  /\ UNCHANGED <<iter, inserted, npos, ref, geo>>
+  /\ UNCHANGED <<iter, inserted, npos, ref, geo, hist>>
 
 Next == Gen \/ Start \/ Phys \/ End \/ Reset
 Spec == Init /\ [][Next]_vars
@@ -259,5 +274,8 @@ LedgerEvent == (pc = "gen" /\ ~err /\ Live = {} /\ Queued = {}) => win = dep + e
 WithinCapacity == Len(inits) <= InitCap
 \* every behaviour ends: queued = alive = 0 (or an explicit capacity error) -- liveness
 Terminates == <>(pc = "done" \/ (pc = "gen" /\ Live = {} /\ Queued = {} /\ iter > 0) \/ iter = MaxIter)
+\* replay: print the environment script of every behaviour that has run to its end
+Ended == (pc = "gen" /\ ~err /\ Live = {} /\ Queued = {} /\ iter > 0 /\ inserted >= 1) \/ (err /\ pc \in {"start", "gen"})
+EmitScript == Ended => PrintT(<<"SCRIPT", ToJson(hist)>>)
 \* hide ledgers from the fingerprint? No: they are part of what is checked (kept small by MaxE)
 =============================================================================
